@@ -835,6 +835,18 @@ func (s *signGen) attempts(w, t, class string, flags []string) {
 	}
 }
 
+// bindSeq: a MASSIP-2 binding withdrawal whose sequence does not meet the engine's rule (one short / default / type bit)
+func (s *signGen) bindSeq(w string, all []gCoin) bool {
+	for _, c := range all {
+		if s.ip2(c) {
+			t := s.defineSignTx([]string{s.inSpec(c, 2+s.r.Intn(3))}, 1, c.amt)
+			s.attempts(w, t, "bind-seq", secAllFlags)
+			return true
+		}
+	}
+	return false
+}
+
 func (s *signGen) scenario() {
 	l := s.l
 	w := l.wallets[s.r.Intn(len(l.wallets))]
@@ -937,14 +949,8 @@ func (s *signGen) scenario() {
 		t := s.defineSignTx([]string{s.inSpec(cs[0], 0)}, 1, total(cs))
 		s.attempts(w, t, "badflag", []string{"BOGUS", "all", "ALL|", "SINGLE|ANYONE", "ALL|ANYONECANPAY|X", "0x81"})
 	case k < 14: // staking (or MASSIP-2 binding) withdrawal with a sequence that does not meet the lock
-		if s.l.warm > 0 && s.r.Intn(2) == 0 {
-			for _, c := range all {
-				if s.ip2(c) {
-					t := s.defineSignTx([]string{s.inSpec(c, 2+s.r.Intn(3))}, 1, c.amt)
-					s.attempts(w, t, "bind-seq", secAllFlags)
-					return
-				}
-			}
+		if s.l.warm > 0 && s.bindSeq(w, all) {
+			return
 		}
 		for _, c := range all {
 			if c.cls == "stk" {
@@ -1143,6 +1149,14 @@ func genSecSign(g *Gen) {
 		l.drain()
 		for i := 0; i < 3; i++ {
 			s.scenario()
+		}
+		if l.warm > 0 {
+			for _, w := range l.wallets {
+				conf, pend := s.coinsOf(w)
+				if s.bindSeq(w, append(conf, pend...)) {
+					break
+				}
+			}
 		}
 		l.op("q-klocked", "klocked")
 		l.op("q-kscan", "kscan")
